@@ -294,6 +294,23 @@ let () =
         let fuel = nat_of_int (List.length w + 1) in
         let t = view_rej_tokens_tc fuel (List.assoc which rtabs) (adj_of adj) (n_of_int (ai sc)) pol (ab bol) w in
         Printf.printf "rejtokens %s %s\n" which (toks_str t)
+      | L [A "rejtokens_ln"; sc; bol; inp; L pols] ->
+        let w = bytes_of inp in
+        let pols = List.map policy_of pols in
+        let pol r = match List.assoc_opt (int_of_n r) pols with Some p -> p | None -> RejNever in
+        let fuel = nat_of_int (List.length w + 1) in
+        let t = spec_rej_tokens_ln fuel prog (n_of_int (ai sc)) pol (ab bol) w in
+        Printf.printf "rejtokens_ln %s\n"
+          (String.concat " " (List.map (fun ((r, h), l) -> Printf.sprintf "%d:%d:%d" (int_of_n r) (int_of_nat h) (int_of_nat l)) t))
+      | L [A "unputrun"; size; nch; cp; inp; cs] ->
+        (* the buffer after the first refill: the file's bytes, the two end-of-buffer bytes, the rest of the array *)
+        let size = ai size and nch = ai nch and cp = ai cp in
+        let data = bytes_of inp in
+        let pad = List.init (max 0 (size + 2 - List.length data - 2)) (fun _ -> n_of_int 7) in
+        let b = { u_mem = data @ [n_of_int 0; n_of_int 0] @ pad; u_size = nat_of_int size; u_nch = nat_of_int nch; u_cp = nat_of_int cp } in
+        (match unputs b (bytes_of cs) with
+         | None -> Printf.printf "unputrun OVERFLOW\n"
+         | Some b' -> Printf.printf "unputrun OK %s\n" (String.concat " " (List.map (fun x -> string_of_int (int_of_n x)) (u_unread b'))))
       | L [A "rejvalidate"; sc; bol; inp; L pols; L evs] ->
         let w = bytes_of inp in
         let pols = List.map policy_of pols in
